@@ -71,6 +71,8 @@ type Term struct {
 	Exited           bool
 	ExitT            time.Duration
 	ExitedByTeardown bool
+	ExitSeq          int
+	CtxDoneAtExit    bool // the callback returned with its context done (blocking callbacks return for no other reason, bar teardown)
 }
 
 type LogRec struct {
@@ -118,6 +120,7 @@ type SnapInst struct {
 	Started     bool // Start returned nil and no stop call has begun since
 	InStop      bool // a stop call is in progress
 	Stopped     bool // a stop call has returned nil (and no Start since)
+	ByCancel    bool // ... and that stop was the cancellation of the Start context (state FOLLOWER, not STOPPED)
 	State       string
 	IsLeader    bool
 	StIsLeader  bool
